@@ -456,7 +456,7 @@ PROPS = {
     "C17": {
         "technique": "runtime monitoring: every scalar overload compared with the C01/C02/C03/C06/C07/C08 reference model and with lane 0 of the batch kernel of the architecture "
                      "under test; 8-bit operand pairs exhaustive, 16-bit strided/exhaustive",
-        "level_text": "Each scalar overload (add .. pow with integer exponent) is evaluated on all 8-bit operand pairs, a 1/4099 stride (quick) or all (thorough) 16-bit pairs, and "
+        "level_text": "Each scalar overload (add .. pow with integer exponent) is evaluated on all 8-bit operand pairs, a 1/4099 (quick) or 1/17 (thorough) stride of the 16-bit pairs, and "
                       "boundary-lattice + random operands of the wider and floating types (NaN excluded, exact-cancellation triples for the fma family over-weighted); the result "
                       "must equal the model bit for bit (fused-or-unfused for the fma family, numerically for min/max of +-0) and lane 0 of the batch form on sse2, avx2, avx512bw "
                       "and emulated<128>. Scalar elementary functions are compared with the batch lane within an 8-ulp envelope (the per-function bounds are C10/C11's).",
@@ -470,7 +470,7 @@ PROPS = {
             {"unit": "c17", "variant": "asan", "archs": ["sse2", "avx2"], "tiers": ["thorough"], "args": ["--scale", "0.02"],
              "env": {"ASAN_OPTIONS": "detect_leaks=0", "UBSAN_OPTIONS": "print_stacktrace=0"}},
         ],
-        "rule": "each evaluation = one scalar overload call compared with the model and with the batch lane; operands: all 2^16 8-bit pairs, strided/all 16-bit pairs, boundary "
+        "rule": "each evaluation = one scalar overload call compared with the model and with the batch lane; operands: all 2^16 8-bit pairs, strided 16-bit pairs, boundary "
                 "lattice and random bit patterns, exact-cancellation fma triples; distinct cell = (op, type, arch, class of each operand)",
         "assumptions": COMMON_ASSUME + ["non-NaN scalars (as the property states)", "sign, signnz, bitofsign excluded (documented different encodings)"],
         "floor": {"quick": 10**7, "thorough": 10**8},
